@@ -39,6 +39,10 @@ CHECKS = {
  'C08': tv('28 templates: run-time checks (array/slice/string index, 2- and 3-index slicing, make, slice-to-array, nil map / pointer / func, divide by zero, type assertion, uncomparable interface comparison, '
            'close/send on nil/closed channels) with full-width symbolic indices, and defer/recover shapes (LIFO, argument capture, named results, indirect recover, re-panic, nested recover, panic in defer, '
            'runtime.Error) where a symbolic selector picks the panicking operation; trace and termination must equal the specification on every path.', 'DESIGN.md §4 C08'),
+ 'C09': tv('18 type-family templates: symbolic selectors pick the dynamic type (named vs underlying, unnamed composite types, same-named types declared in different functions or packages, struct types differing only in '
+           'field name / tag / package of a non-exported field) and the assertion target; method sets through value and pointer embedding at depth <= 3 (13 receiver shapes x value/pointer/both interfaces), '
+           'dispatch through interfaces, embedded fields, method values and expressions with payloads mutated afterwards (receiver copied vs shared), interface-to-interface assertions, nil, interface equality incl. '
+           'uncomparable panics, dynamic types as map keys; every path must give the trace Go prescribes.', 'DESIGN.md §4 C09'),
  'C13': tv('Overrides are exercised through templates importing math, math/bits, sync/atomic, unicode and gopherjs/nosync (the real overlay merge builds them): bits.Add32 (Mul32/Div32/Rem32 in the thorough tier), '
            'atomic Add/Swap/CompareAndSwap/Load/Store on int32/uint32/uintptr/int64 vs their sequential specification, nosync Mutex/RWMutex/WaitGroup/Once/Map/Pool histories chosen by symbolic selectors '
            '(panic exactly where sync would block), unicode case-mapping laws, and math Floor/Ceil/Trunc/Sqrt/Copysign/Signbit/IsNaN/IsInf/Min/Max for every float64 in the SMT FloatingPoint theory.', 'DESIGN.md §4 C13'),
